@@ -93,3 +93,30 @@ func VerifUnifierBreaker() {
 	}
 	gosym.Reach("end")
 }
+
+// VerifUnifierBreakerConcurrent: the breaker is open and OpenDuration has elapsed; G callers ask
+// for permission concurrently, under every interleaving of their atomic steps: at most
+// HalfOpenRequests of them are admitted.
+func VerifUnifierBreakerConcurrent() {
+	G := gosym.Param("G")
+	cfg := zzBreakerConfig()
+	cb := NewCircuitBreaker(cfg)
+	for i := 0; i < cfg.FailureThreshold; i++ {
+		cb.RecordFailure()
+	}
+	gosym.Assert(cb.GetState() == CircuitOpen, "opens at the threshold")
+	gosym.AdvanceBy(int64(cfg.OpenDuration) + 1)
+	admitted, done := 0, 0
+	for g := 0; g < G; g++ {
+		go func() {
+			if cb.Allow() {
+				admitted++
+			}
+			done++
+		}()
+	}
+	gosym.RunPending()
+	gosym.Assert(done == G, "every caller gets an answer")
+	gosym.AssertKF(admitted <= cfg.HalfOpenRequests, "unification breaker admits at most the configured number of probes when half-open, also under concurrent callers", "KF-C08-2", true)
+	gosym.Reach("end")
+}
